@@ -17,7 +17,8 @@ EXPLANATION = ("BlockingPortal: the per-call wrapper calls the callable exactly 
                "the running marker, sets the stop event and cancels the group on request; every spawned call is a child of the portal's own "
                "task group, marshalled into the loop thread; leaving the portal joins that group after stop(); start_blocking_portal stops the "
                "portal (cancelling on error) and joins the thread on every exit; start_task forwards cancellation / failure / missing "
-               "started() to the status future only while it is unresolved; the loop-side entry points resolve their future on every path.")
+               "started() to the status future only while it is unresolved; the loop-side entry points resolve their future on every path."
+               " BlockingPortalProvider: leases are counted under the lock, the portal is shut down gracefully outside the lock, and the provider forgets it in the same locked section that returned the last lease.")
 NOT_DECIDED = "Interleavings of several real threads with the loop and with stop(); concurrent.futures.Future and threading are trusted."
 
 FT = "from_thread.py"
